@@ -313,7 +313,7 @@ def judge(ctx, traces, source, bad_tags, may_skip=()):
         ts = tags(x)
         # attribute to a class already seen failing on its own (depth 1), else to the root class
         culprit = next((g for g in ts if g in bad_tags), ts[0])
-        if depth(x) <= 1:
+        if depth(x) <= 1 or ts[0] == 'seed':
             bad_tags.add(ts[0])
         e = t['ev'][at - 1]
         ctx.violation('pattern:%s:%s' % (culprit, why if why.startswith('raises') else why.split(':')[0]),
@@ -327,12 +327,12 @@ def judge(ctx, traces, source, bad_tags, may_skip=()):
     return nrej
 
 
-def mc(ctx, cfg, sub, label, env, timeout):
+def mc(ctx, cfg, sub, label, env, timeout, workers=None):
     """one TLC run of PatternModel in its own work directory (several run concurrently); any violation in a
     design-level run is a machinery error, never a verdict on the code"""
     from harness import tlc
     wd = os.path.join(ctx.work, 'mc_' + sub)
-    r = tlc.run('PatternModel', cfg, wd, workers=os.cpu_count() or 4, timeout=timeout, env=dict(JVM, **env))
+    r = tlc.run('PatternModel', cfg, wd, workers=workers or max(2, (os.cpu_count() or 4) // 2), timeout=timeout, env=dict(JVM, **env))
     ctx.cov['model_runs'].append(dict(module='PatternModel', cfg=cfg, label=label, **r.summary()))
     ctx.cov['states'] += r.distinct
     ctx.cov['transitions'] += r.generated
@@ -417,8 +417,8 @@ def run(ctx):
     sfx = 'thorough' if thorough else 'quick'
     pool = ThreadPoolExecutor(max_workers=2)
     f_laws = pool.submit(mc, ctx, 'PatternModel_%s.cfg' % sfx, 'laws', 'enumeration + laws', {}, 3000)
-    f_strm = pool.submit(mc, ctx, 'PatternModel_streams.cfg', 'streams', 'stream machine', {}, 1200)
-    r = mc(ctx, 'PatternModel_%s_export.cfg' % sfx, 'export', 'enumeration export', dict(VERIF_EXPORT=exp_path), 1200)
+    f_strm = pool.submit(mc, ctx, 'PatternModel_streams.cfg', 'streams', 'stream machine', {}, 1200, 4)
+    r = mc(ctx, 'PatternModel_%s_export.cfg' % sfx, 'export', 'enumeration export', dict(VERIF_EXPORT=exp_path), 1200, 2)
     require_marks(r, ('Pick',))
     phase['export'] = round(time.time() - t0, 1)
     exprs = load_export(exp_path)
